@@ -17,7 +17,12 @@
 // cancelled, subscriber closes its channel - while messages are held inside the handler or inside Publish; they are
 // let go only after the end has gone through the Router); multi-matrix/<pubmode>, random-multi/<pubmode> (several
 // handlers with their own publisher instances, publisher/subscriber decorators on the Router: a message's settlement
-// must follow the publisher of its own handler). The oracle is the same for all classes.
+// must follow the publisher of its own handler); names-matrix/<scheme>, random-names/<scheme> (several handlers whose
+// names are unusual but legal - empty, blank, prefixes of each other, equal to topics, differing in case only, hostile
+// strings - and whose chains differ: some handlers carry handler-level middlewares that change the outcome, others carry
+// none, some are added to the running Router and started by RunHandlers; a message's settlement must follow the chain of
+// its own handler = router-level middlewares + the middlewares added to THAT handler + its function).
+// The oracle is the same for all classes.
 package c02
 
 import (
@@ -102,6 +107,9 @@ const (
 // middleware prefixes. "pass" forwards unchanged, "add" appends one message to whatever the inner
 // handler returned (keeping its error), "swallow" turns an error into success keeping the messages,
 // "fail" turns success into an error keeping the messages, "recover" turns a panic into an error.
+// "drop" returns no messages (keeping the error), "iack" / "inack" settle the message themselves before they call the
+// inner handler (what middleware.InstantAck does), "lack" acks it after the inner handler finished in whatever way
+// (deferred), before the Router gets the result. The last four are only used by the class names.
 // "-r" = router level (Router.AddMiddleware), "-h" = handler level (Handler.AddMiddleware).
 var mwMatrix = [][]string{
 	nil,
@@ -225,6 +233,272 @@ var multiCells = func() []multiCell {
 	return cs
 }()
 
+// ---- class "names": several handlers with unusual names whose chains differ
+
+// how the handlers are named (every name is legal: AddHandler only demands that it is unique within the Router)
+var nameSchemes = []string{
+	"empty",   // one handler is registered under "", the others under ordinary names
+	"blank",   // names made of white space only (" ", "  ", "\t", ...), possibly next to ""
+	"prefix",  // names that are prefixes / extensions of each other
+	"topic",   // names equal to subscribe / publish topics of the same or of another handler
+	"case",    // names that differ in letter case or in a trailing blank / NUL only
+	"hostile", // printf verbs, control characters, multi-byte and random UTF-8
+	"mixed",   // each name drawn from any of the above
+}
+
+// result-changing and self-settling middlewares one handler gets while the other handlers do not
+var nameTransformers = []string{"swallow", "fail", "add", "drop", "recover", "iack", "inack", "lack"}
+
+type nameCell struct {
+	Scheme string
+	T      string // the handler-level middleware that changes the outcome
+	On     int    // 0: it is added to the handler with the odd name (handler 0); 1: to the other one (handler 1)
+}
+
+var nameCells = func() []nameCell {
+	var cs []nameCell
+	for _, sch := range nameSchemes {
+		for _, t := range nameTransformers {
+			for on := 0; on < 2; on++ {
+				cs = append(cs, nameCell{sch, t, on})
+			}
+		}
+	}
+	return cs
+}()
+
+// handler behaviours whose outcome at least one of nameTransformers changes: ret-1, err+1, panic-str, ret-nil, err
+var nameProbes = []int{2, 5, 9, 0, 4}
+
+// genNames draws the names of the handlers of a names case. Handler 0 always gets the oddest one.
+func genNames(r *vlib.Rand, scheme, id string, cfg *config) []string {
+	nh := len(cfg.Handlers)
+	base := id + ".h"
+	pool := func(sch string, k int) string {
+		switch sch {
+		case "empty":
+			if k == 0 {
+				return ""
+			}
+			return base + strconv.Itoa(k)
+		case "blank":
+			if k == 0 {
+				return []string{" ", "", "\t"}[r.Intn(3)]
+			}
+			return []string{" ", "  ", "\t", "\n", "\u00a0", " \t ", "", base + strconv.Itoa(k)}[r.Intn(8)]
+		case "prefix":
+			if k == 0 {
+				return []string{id, base, ""}[r.Intn(3)]
+			}
+			return []string{base, base + "1", base + "10", base + "1.", id + ".", id, id[:len(id)-1], base + strconv.Itoa(k)}[r.Intn(8)]
+		case "topic":
+			o := (k + 1) % nh
+			return []string{cfg.topicIn(id, k), cfg.topicIn(id, o), cfg.topicOut(id, k), cfg.topicOut(id, o)}[r.Intn(4)]
+		case "case":
+			b := id + ".Handler"
+			if k == 0 {
+				return b
+			}
+			return []string{strings.ToLower(b), strings.ToUpper(b), b + " ", " " + b, b + "\x00", b + "\n"}[r.Intn(6)]
+		default: // hostile
+			return []string{"%s", "%!v(MISSING)%d%n", "\x00", "a\x00b", "*", ".", "handler_name", "\xe2\x80\x8b", `"`, r.UTF8(8), r.UTF8(3)}[r.Intn(11)]
+		}
+	}
+	names := make([]string, nh)
+	seen := map[string]bool{}
+	for k := range names {
+		sch := scheme
+		if sch == "mixed" {
+			sch = nameSchemes[r.Intn(len(nameSchemes)-1)]
+			if k == 0 && r.Bool() {
+				sch = "empty"
+			}
+		}
+		nm := pool(sch, k)
+		for try := 0; seen[nm] && try < 4; try++ {
+			nm = pool(sch, k)
+		}
+		if seen[nm] {
+			nm = base + strconv.Itoa(k)
+		}
+		seen[nm] = true
+		names[k] = nm
+	}
+	return names
+}
+
+// namesCase builds a case of the class names. cell == nil: random configuration.
+func namesCase(e *vlib.Env, cell *nameCell) config {
+	r := e.R
+	id := e.ID()
+	scheme := nameSchemes[r.Intn(len(nameSchemes))]
+	nh := r.Range(2, 4)
+	if cell != nil {
+		scheme = cell.Scheme
+		nh = r.Range(2, 3)
+	}
+	// re-used name: one more handler (the last one) is started by Run, handles its messages and is stopped; then a
+	// late handler is registered under the name it had
+	reuse := r.Chance(0.15) && cell == nil && nameReuseEnabled
+	if reuse {
+		nh++
+	}
+	kinds := make([]string, nh)
+	for k := range kinds {
+		switch x := r.Intn(10); {
+		case x < 8 || k < 2 && cell != nil:
+			kinds[k] = kindPub
+		case x < 9:
+			kinds[k] = kindNilPub
+		default:
+			kinds[k] = kindNoPub
+		}
+	}
+	pm := pubModes[r.Intn(len(pubModes))]
+	cfg := config{PubMode: pm, NameScheme: scheme, YieldP: []float64{0, 0.1, 0.3}[r.Intn(3)], SameTopics: r.Chance(0.2), SubDecos: r.Intn(2)}
+	if cell != nil {
+		cfg.Class = "names-matrix/" + scheme
+	} else {
+		cfg.Class = "random-names/" + scheme
+	}
+	buildMulti(&cfg, id, kinds, pm, r.Intn(3), func(int) string { return []string{"", "", "accept", "accept", "error"}[r.Intn(5)] })
+	for k, nm := range genNames(r, scheme, id, &cfg) {
+		cfg.Handlers[k].Named, cfg.Handlers[k].Name = true, nm
+	}
+	pred := -1
+	if reuse {
+		nh--
+		pred = nh
+		cfg.Class = "names-reuse/" + scheme
+	}
+
+	// middlewares: at most one result-changing and at most one self-settling middleware in the chain of a handler, so
+	// that the expected result does not depend on the nesting order (which is another property)
+	passes := func(lvl string) []string {
+		var mw []string
+		for i := r.Intn(3); i > 0; i-- {
+			mw = append(mw, "pass"+lvl)
+		}
+		return mw
+	}
+	cfg.MW = passes("-r")
+	routerT, routerS := false, false
+	if cell == nil {
+		switch x := r.Intn(10); {
+		case x == 0:
+			cfg.MW = append(cfg.MW, []string{"swallow", "fail", "add", "drop", "recover"}[r.Intn(5)]+"-r")
+			routerT = true
+		case x == 1:
+			cfg.MW = append(cfg.MW, []string{"iack", "inack", "lack"}[r.Intn(3)]+"-r")
+			routerS = true
+		}
+	}
+	own := func(t string) []string {
+		mw := passes("-h")
+		mw = append(mw, t+"-h")
+		return append(mw, passes("-h")...)
+	}
+	if cell != nil {
+		cfg.Handlers[cell.On].MW = own(cell.T)
+		if nh > 2 {
+			cfg.Handlers[2].MW = passes("-h")
+		}
+	} else {
+		// some handlers get a middleware that changes the outcome, at least one gets it, at least one has none at all
+		plain := r.Intn(nh)
+		changed := (plain + 1 + r.Intn(nh-1)) % nh
+		for k := range cfg.Handlers {
+			if k == plain {
+				continue
+			}
+			var mw []string
+			if (k == changed || r.Chance(0.5)) && !routerT {
+				mw = append(mw, []string{"swallow", "fail", "add", "drop", "recover"}[r.Intn(5)]+"-h")
+			}
+			if (k == changed && len(mw) == 0 || r.Chance(0.3)) && !routerS {
+				mw = append(mw, []string{"iack", "inack", "lack"}[r.Intn(3)]+"-h")
+			}
+			if len(mw) == 2 && r.Bool() {
+				mw[0], mw[1] = mw[1], mw[0]
+			}
+			if r.Chance(0.3) {
+				mw = append(passes("-h"), mw...)
+			}
+			if len(mw) == 0 && r.Bool() {
+				mw = []string{"pass-h"}
+			}
+			cfg.Handlers[k].MW = mw
+		}
+	}
+
+	// registration order; sometimes one handler is added to the running Router
+	cfg.HOrder = r.Perm(len(cfg.Handlers))
+	cfg.RMWAt = r.Intn(len(cfg.Handlers) + 1)
+	cfg.MWGrouped = r.Bool()
+	if r.Chance(0.3) {
+		cfg.Handlers[r.Intn(nh)].Late = true
+	}
+	if reuse {
+		succ := r.Intn(nh)
+		for k := range cfg.Handlers {
+			cfg.Handlers[k].Late = k == succ
+		}
+		p := &cfg.Handlers[pred]
+		p.StopEarly, p.Name = true, cfg.Handlers[succ].Name
+		var ts []string
+		if !routerT {
+			ts = append(ts, "swallow", "fail", "add", "drop", "recover")
+		}
+		if !routerS {
+			ts = append(ts, "iack", "inack", "lack")
+		}
+		p.MW = own(ts[r.Intn(len(ts))])
+	}
+
+	// messages
+	for hd := 0; hd < len(cfg.Handlers); hd++ {
+		var hs []int
+		if hd == pred {
+			for i := r.Range(1, 2); i > 0; i-- {
+				hs = append(hs, r.Intn(len(hbehs)))
+			}
+		} else if cell != nil {
+			hs = append(hs, nameProbes[:4]...)
+			hs = append(hs, r.Intn(len(hbehs)))
+		} else {
+			for i := r.Range(1, 4); i > 0; i-- {
+				if r.Chance(0.6) {
+					hs = append(hs, nameProbes[r.Intn(len(nameProbes))])
+				} else {
+					hs = append(hs, r.Intn(len(hbehs)))
+				}
+			}
+		}
+		for _, h := range hs {
+			s := mspec{H: h, P: r.Intn(len(pbehs)), Hd: hd, Y1: r.Intn(3), Y2: r.Intn(3)}
+			if r.Chance(0.6) {
+				s.P = 0
+			}
+			if kinds[hd] == kindNoPub && hbehs[s.H].Outs != -1 {
+				s.H = hbehsNoOut[r.Intn(len(hbehsNoOut))]
+			}
+			cfg.Specs = append(cfg.Specs, s)
+		}
+	}
+	cfg.Barrier = r.Chance(0.3) && !reuse
+	return cfg
+}
+
+// nameReuseEnabled switches on the part of class random-names (about 15% of its cases) in which a late handler is
+// registered under the name of a handler that has handled its messages and has been stopped (classes
+// names-reuse/<scheme>; every violation in them that goes with an inherited middleware is reported under the clause
+// name-reuse-inherits-middleware). The pinned Router failed it - the new handler's chain contained the handler-level
+// middlewares of the stopped one, e.g. its failing message was acked; fixed in /repo 2434b2b, on since then.
+// The switch does not change the case list otherwise (the draw is made in either case).
+const nameReuseEnabled = true
+
+func namesRandomCases(tier string) int { return vlib.TierN(tier, 800, 30000) }
+
 func oldRandomCases(tier string) int   { return vlib.TierN(tier, 2000, 500000) }
 func endRandomCases(tier string) int   { return vlib.TierN(tier, 600, 30000) }
 func multiRandomCases(tier string) int { return vlib.TierN(tier, 400, 20000) }
@@ -234,7 +508,8 @@ func init() {
 		ID:    "C02",
 		Level: "fault_enumeration",
 		Cases: func(tier string) int {
-			return matrixCases() + oldRandomCases(tier) + len(endCells) + len(multiCells) + endRandomCases(tier) + multiRandomCases(tier)
+			return matrixCases() + oldRandomCases(tier) + len(endCells) + len(multiCells) + endRandomCases(tier) + multiRandomCases(tier) +
+				len(nameCells) + namesRandomCases(tier)
 		},
 		Rule: fmt.Sprintf("matrix part: %d cells = {%d handler behaviours: returns nil/empty/1/3 messages, error, error+1/3 messages, panic(string|error|nil), "+
 			"context.Canceled (bare/wrapped), Ack-then-{ok,ok+msg,err,err+msg,panic}, Nack-then-{ok,ok+1/3 msgs,err,err+msg,panic}, Ack-then-Nack} x {publisher: accept,error,panic(string),panic(nil),error on the first call for a message only} x "+
@@ -250,10 +525,20 @@ func init() {
 			"Class multi (%d enumerated cells + random part): 2..4 handlers on one Router, each with its own subscription; publishers = {distinct instances of one Go type, distinct instances with equal / "+
 			"different String(), different Go types, one shared instance} x {0..2 publisher decorators: message transform, wrapping type} x publisher instances that behave differently "+
 			"(accept / error / panic) x handler kinds; a Publish call counts for a message only if it reached the publisher instance given to the message's own handler. "+
+			"Class names (%d enumerated cells + random part): 2..4 handlers on one Router whose names are unusual but legal = {one handler named \"\", names of white space only, names that are prefixes / "+
+			"extensions of each other or of the case id, names equal to the subscribe / publish topic of the same or another handler, names differing in letter case or a trailing blank / NUL only, "+
+			"printf verbs / control characters / random UTF-8, a mix} x chains that differ per handler: one handler (the oddly named one or its neighbour) carries a handler-level middleware "+
+			"{error-swallowing, failing, output-adding, output-dropping, panic-recovering, Ack before the inner handler (InstantAck style), Nack before it, Ack after it} between 0..2 pass-through "+
+			"ones while at least one other handler has no handler-level middleware (random part: every handler but one draws 0..1 result-changing + 0..1 self-settling handler-level middleware, "+
+			"or the Router has one at router level) x registration order {random handler order, router-level middlewares added before / between / after the handlers, handler-level middlewares right "+
+			"after their handler / after all handlers} x {all handlers started by Run, one handler added to the running Router and started by RunHandlers} x handler kinds x publisher modes; every handler "+
+			"gets messages whose outcome the middlewares of the OTHER handlers would change (returns 1 message, error+1 message, panic, nothing, error); a message is judged against the chain of its own "+
+			"handler = router-level middlewares + the middlewares added to that handler + its function, and each scripted middleware records the messages it is invoked with. "+
 			"A case is non-trivial when every emitted message "+
 			"was taken, handled and judged (and, for multi-message barrier cases, >=2 handlers were observed in flight together; for class end, >=1 message was in flight when the subscription "+
-			"ended and the end was observed to have propagated; for class multi, >=2 handlers handled messages); distinct = distinct "+
-			"(cell, multiplicity) for the matrices, distinct (class, configuration, per-message behaviours, settlement order) for random batches.", len(cells), len(hbehs), len(mwMatrix), len(endCells), len(multiCells)),
+			"ended and the end was observed to have propagated; for classes multi and names, >=2 handlers handled messages; for class names, "+
+			"additionally >=1 handler has an outcome-changing middleware of its own and >=1 has no middleware of its own); distinct = distinct "+
+			"(cell, multiplicity) for the matrices, distinct (class, configuration, per-message behaviours, settlement order) for random batches.", len(cells), len(hbehs), len(mwMatrix), len(endCells), len(multiCells), len(nameCells)),
 		Assumptions: []string{
 			"panic(nil) follows the Go >= 1.21 semantics of the harness module (recover() returns *runtime.PanicNilError)",
 			"a message counts as taken by the Router when the scripted subscriber's channel send completed (it was received by the Router's subscriber decorator)",
@@ -261,6 +546,9 @@ func init() {
 			"splitting the outputs over several Publish calls is tolerated (the statement only says every returned message was accepted); an empty Publish call is not",
 			"'never settles' is decided by process quiescence (all goroutines blocked, no timer pending), never by a time-out; RouterConfig.CloseTimeout is one hour",
 			"class end: every message is taken and has entered its handler before the subscription is ended (a message the Router's subscriber decorator can no longer deliver is legitimately nacked without being handled, which is not what C02 is about)",
+			"class names: 'the handler chain' of a message is the chain of the handler whose subscription delivered it: the middlewares given to Router.AddMiddleware, the ones given to that handler's Handler.AddMiddleware (godoc: 'adds new middleware to the specified handler in the router') and its function; all of them are in place before the handler is started (Run / RunHandlers); every scripted middleware calls the inner handler exactly once, so a middleware of the chain that was not entered (chain-middleware-skipped) or a middleware of another handler that was entered (chain-foreign-middleware) means that another chain was invoked; these two clauses are only reported when no clause about settlements / Publish calls fired in the case",
+			"class names: at most one result-changing and at most one self-settling middleware per chain, so that the expected outcome does not depend on the nesting order of middlewares (another property); a settlement made by a middleware of the chain counts as 'a settlement the handler made itself'",
+			"class names: registering a late handler under the name of a handler that was stopped earlier (classes names-reuse/*, clause name-reuse-inherits-middleware) is part of class random-names: the new handler's chain consists of the router-level middlewares, its own and its function only (the pinned Router also wrapped the stopped handler's middlewares around it; fixed in 2434b2b)",
 			"class multi: 'the handler's publisher' is the instance passed to AddHandler, seen through whatever decorators the Router was given; publisher decorators used by the harness do not change message values",
 		},
 		Run: run,
@@ -284,6 +572,15 @@ type hspec struct {
 	Kind string
 	Sub  int // index into config.Subs
 	Pub  int // index into config.Pubs (-1: the handler has no publisher of its own)
+
+	// class names
+	Named bool     // register the handler under Name (otherwise under a name derived from the case id)
+	Name  string   // may be empty, blank, equal to a topic ...
+	MW    []string // middlewares added to this handler only (Handler.AddMiddleware), in this order
+	Late  bool     // added while the Router is running and started by RunHandlers
+	// StopEarly: the handler gets its messages first and is stopped (Handler.Stop, Stopped() closed) before the late
+	// handlers are added; a late handler may then be registered under the same name
+	StopEarly bool
 }
 
 // pspec is one publisher instance.
@@ -315,6 +612,12 @@ type config struct {
 	// class end
 	End  string
 	Keep bool
+
+	// class names
+	NameScheme string
+	HOrder     []int // order in which the handlers are registered (nil: 0..n-1); late handlers keep their relative order
+	RMWAt      int   // the router-level middlewares are added after this many handlers have been registered
+	MWGrouped  bool  // handler-level middlewares are added after all (early) handlers have been registered, otherwise right after their handler
 }
 
 func (c *config) normalize(id string) {
@@ -327,6 +630,45 @@ func (c *config) normalize(id string) {
 		c.Handlers = []hspec{h}
 		c.Subs = []string{id}
 	}
+}
+
+// chainOf returns the middlewares of the chain of handler hd: cfg.MW ("-r": router level; "-h": added to every handler)
+// and the ones that were added to this handler only.
+func (c *config) chainOf(hd int) []string {
+	if len(c.Handlers[hd].MW) == 0 {
+		return c.MW
+	}
+	return append(append([]string{}, c.MW...), c.Handlers[hd].MW...)
+}
+
+func (c *config) suffix(k int) string {
+	if len(c.Handlers) == 1 {
+		return ""
+	}
+	return strconv.Itoa(k)
+}
+
+// topicIn / topicOut: subscribe and publish topic of handler k (after normalize).
+func (c *config) topicIn(id string, k int) string {
+	if c.SameTopics && len(c.Subs) == len(c.Handlers) {
+		return id + ".in"
+	}
+	return id + ".in" + c.suffix(k)
+}
+
+func (c *config) topicOut(id string, k int) string {
+	if c.SameTopics {
+		return id + ".out"
+	}
+	return id + ".out" + c.suffix(k)
+}
+
+// hname is the name under which handler k is registered.
+func (c *config) hname(id string, k int) string {
+	if c.Handlers[k].Named {
+		return c.Handlers[k].Name
+	}
+	return id + ".h" + c.suffix(k)
 }
 
 // kindOf returns the kind of the handler that message i was emitted for.
@@ -416,6 +758,16 @@ func run(e *vlib.Env) vlib.Result {
 			last.Hold = []string{holdPre, holdPost}[e.R.Intn(2)]
 		}
 		return runBatch(e, cfg)
+	}
+	idx -= endRandomCases(e.Tier)
+	if idx >= multiRandomCases(e.Tier) {
+		idx -= multiRandomCases(e.Tier)
+		if idx < len(nameCells) {
+			res := runBatch(e, namesCase(e, &nameCells[idx]))
+			res.Sig = vlib.Sig("names-matrix", idx)
+			return res
+		}
+		return runBatch(e, namesCase(e, nil))
 	}
 	// random multi
 	r := e.R
@@ -566,31 +918,77 @@ func randomMW(r *vlib.Rand) []string {
 // Reference function
 
 type expectation struct {
-	Self     string // settlement made by the handler itself ("" if none)
+	Self     string // first settlement made by the chain itself (a middleware of the chain or the handler function; "" if none)
+	Entry    string // settlement state when the handler function is entered (made by a middleware of the chain)
+	Exit     string // settlement state when the handler function is left
+	SelfRet  []bool // what the settlement calls of the handler function return
 	ChainErr bool   // the chain returned an error or panicked
 	NOuts    int    // number of messages the chain returned (only meaningful for the publish decision when !ChainErr)
 	Publish  bool   // the publisher must be called
 	Final    string // "ack" | "nack"
 }
 
+func mwKind(name string) string { return name[:strings.IndexByte(name, '-')] }
+
+func isSettler(kind string) bool { return kind == "iack" || kind == "inack" || kind == "lack" }
+
+// transformer is the (only) middleware of the chain that changes the result of the inner handler.
 func transformer(mw []string) string {
 	for _, m := range mw {
-		if !strings.HasPrefix(m, "pass") {
-			return m[:strings.IndexByte(m, '-')]
+		if k := mwKind(m); k != "pass" && !isSettler(k) {
+			return k
 		}
 	}
 	return ""
 }
 
+// settler is the (only) middleware of the chain that settles the message itself.
+func settler(mw []string) string {
+	for _, m := range mw {
+		if k := mwKind(m); isSettler(k) {
+			return k
+		}
+	}
+	return ""
+}
+
+// settleSim replays Ack / Nack calls on a message: the first one wins, Ack after Ack (Nack after Nack) reports true.
+type settleSim struct{ s string }
+
+func (m *settleSim) do(what string) bool {
+	if m.s == "" {
+		m.s = what
+	}
+	return m.s == what
+}
+
 // expect is the oracle's model of the statement.
 func expect(kind string, mw []string, h hbeh, pb string) expectation {
 	var x expectation
-	switch h.Pre {
-	case "ack", "acknack":
-		x.Self = "ack"
-	case "nack":
-		x.Self = "nack"
+	// settlements made by the chain itself, in the order in which they are made: a middleware before the handler
+	// function, the handler function, a middleware after it
+	var sim settleSim
+	set := settler(mw)
+	switch set {
+	case "iack":
+		sim.do("ack")
+	case "inack":
+		sim.do("nack")
 	}
+	x.Entry = sim.s
+	switch h.Pre {
+	case "ack":
+		x.SelfRet = []bool{sim.do("ack")}
+	case "nack":
+		x.SelfRet = []bool{sim.do("nack")}
+	case "acknack":
+		x.SelfRet = []bool{sim.do("ack"), sim.do("nack")}
+	}
+	x.Exit = sim.s
+	if set == "lack" {
+		sim.do("ack")
+	}
+	x.Self = sim.s
 	outs := 0
 	if h.Outs > 0 && kind != kindNoPub {
 		outs = h.Outs
@@ -604,6 +1002,10 @@ func expect(kind string, mw []string, h hbeh, pb string) expectation {
 	case "add":
 		if !panicked {
 			outs++
+		}
+	case "drop":
+		if !panicked {
+			outs = 0
 		}
 	case "swallow":
 		if !panicked {
@@ -657,10 +1059,18 @@ type msgRec struct {
 	goid       int64
 	seen       string // settlement observed by the watcher
 	seenStamp  uint64
-	handledBy  int    // index of the handler whose chain was invoked (first entry)
-	parked     string // class end: hold point at which the message is (or was) parked before the gate opened
-	atEnd      string // class end: settlement state sampled after the subscription's end had propagated, before the gate opened
+	handledBy  int         // index of the handler whose chain was invoked (first entry)
+	mwEntries  map[int]int // middleware instance (index into state.mws) -> number of times it was invoked with this message
+	mwTrace    []string    // the middlewares that were invoked with this message, in order of entry
+	parked     string      // class end: hold point at which the message is (or was) parked before the gate opened
+	atEnd      string      // class end: settlement state sampled after the subscription's end had propagated, before the gate opened
 	atEndTaken bool
+}
+
+// mwInst is one middleware given to the Router.
+type mwInst struct {
+	kind  string
+	owner int // handler it was added to with Handler.AddMiddleware; -1: router level (Router.AddMiddleware)
 }
 
 type pubKey struct{ pub, no int }
@@ -694,6 +1104,7 @@ type state struct {
 	byGoid      map[int64]int
 	pubs        map[pubKey]*pubRec
 	unknown     []string
+	mws         []mwInst
 	entered     int
 	inflight    int
 	maxInflight int
@@ -758,6 +1169,13 @@ type decoPub struct {
 func (d *decoPub) Publish(topic string, msgs ...*message.Message) error {
 	d.n.Add(1)
 	return d.Publisher.Publish(topic, msgs...)
+}
+
+func mwLevel(owner int) string {
+	if owner < 0 {
+		return "router level"
+	}
+	return "added to handler #" + strconv.Itoa(owner)
 }
 
 func goid() int64 {
@@ -886,32 +1304,78 @@ func (st *state) registerOut(i int, o *message.Message) {
 	st.ownerUUID[o.UUID] = i
 }
 
-// middleware builds one scripted middleware (see mwMatrix).
-func (st *state) middleware(name string) message.HandlerMiddleware {
-	kind := name[:strings.IndexByte(name, '-')]
+// middleware builds one scripted middleware (see mwMatrix). owner is the handler it is going to be added to
+// (-1: router level). Every invocation is recorded with the message it was made for.
+func (st *state) middleware(name string, owner int) message.HandlerMiddleware {
+	kind := mwKind(name)
+	st.mu.Lock()
+	inst := len(st.mws)
+	st.mws = append(st.mws, mwInst{kind: kind, owner: owner})
+	st.mu.Unlock()
+	// enter records the invocation; foreign = the middleware was added to one handler and is running for a message
+	// of another one (the Router must never do that; its effects are then not part of what the message's chain returns)
+	enter := func(m *message.Message) (i int, known, foreign bool) {
+		st.mu.Lock()
+		defer st.mu.Unlock()
+		i, known = st.byUUID[m.UUID]
+		if !known {
+			return
+		}
+		r := st.recs[i]
+		if r.mwEntries == nil {
+			r.mwEntries = map[int]int{}
+		}
+		r.mwEntries[inst]++
+		foreign = owner >= 0 && owner != st.cfg.Specs[i].Hd
+		lvl := "router"
+		if owner >= 0 {
+			lvl = "handler#" + strconv.Itoa(owner)
+		}
+		r.mwTrace = append(r.mwTrace, kind+"@"+lvl)
+		return
+	}
 	return func(next message.HandlerFunc) message.HandlerFunc {
 		switch kind {
 		case "add":
 			return func(m *message.Message) ([]*message.Message, error) {
+				i, known, foreign := enter(m)
 				outs, err := next(m)
 				x := message.NewMessage(m.UUID+"-x", []byte("added by middleware"))
 				st.mu.Lock()
-				if i, ok := st.byUUID[m.UUID]; ok {
+				if known && !foreign {
 					x.UUID = fmt.Sprintf("%s-x%d", m.UUID, len(st.recs[i].outs))
 					st.registerOut(i, x)
+				} else if known {
+					// attributed to the message, but not one of the messages its own chain returns
+					x.UUID = fmt.Sprintf("%s-xf%d", m.UUID, inst)
+					st.ownerPtr[x] = i
+					st.ownerUUID[x.UUID] = i
 				}
 				st.mu.Unlock()
 				res := make([]*message.Message, 0, len(outs)+1)
 				res = append(res, outs...)
 				return append(res, x), err
 			}
+		case "drop":
+			return func(m *message.Message) ([]*message.Message, error) {
+				i, known, foreign := enter(m)
+				_, err := next(m)
+				if known && !foreign {
+					st.mu.Lock()
+					st.recs[i].outs = nil // still attributed to the message (ownerPtr / ownerUUID) if they are published anyway
+					st.mu.Unlock()
+				}
+				return nil, err
+			}
 		case "swallow":
 			return func(m *message.Message) ([]*message.Message, error) {
+				enter(m)
 				outs, _ := next(m)
 				return outs, nil
 			}
 		case "fail":
 			return func(m *message.Message) ([]*message.Message, error) {
+				enter(m)
 				outs, err := next(m)
 				if err == nil {
 					err = errScriptedMW
@@ -920,6 +1384,7 @@ func (st *state) middleware(name string) message.HandlerMiddleware {
 			}
 		case "recover":
 			return func(m *message.Message) (outs []*message.Message, err error) {
+				enter(m)
 				defer func() {
 					if r := recover(); r != nil {
 						outs, err = nil, fmt.Errorf("c02: recovered: %v", r)
@@ -927,8 +1392,26 @@ func (st *state) middleware(name string) message.HandlerMiddleware {
 				}()
 				return next(m)
 			}
+		case "iack":
+			return func(m *message.Message) ([]*message.Message, error) {
+				enter(m)
+				m.Ack()
+				return next(m)
+			}
+		case "inack":
+			return func(m *message.Message) ([]*message.Message, error) {
+				enter(m)
+				m.Nack()
+				return next(m)
+			}
+		case "lack":
+			return func(m *message.Message) ([]*message.Message, error) {
+				enter(m)
+				defer m.Ack() // also when the inner handler panics: the result does not depend on the nesting order
+				return next(m)
+			}
 		default: // pass
-			return func(m *message.Message) ([]*message.Message, error) { return next(m) }
+			return func(m *message.Message) ([]*message.Message, error) { enter(m); return next(m) }
 		}
 	}
 }
@@ -1054,28 +1537,16 @@ func runBatch(e *vlib.Env, cfg config) (res vlib.Result) {
 		st.recs = append(st.recs, &msgRec{in: m, uuid: u, handledBy: -1})
 		st.byUUID[u] = i
 	}
-	suffix := func(k int) string {
-		if nh == 1 {
-			return ""
-		}
-		return strconv.Itoa(k)
+	topicIn := func(k int) string { return cfg.topicIn(id, k) }
+	topicOut := func(k int) string { return cfg.topicOut(id, k) }
+	hname := func(k int) string { return cfg.hname(id, k) }
+	ownNames := map[string]bool{}
+	for k := range cfg.Handlers {
+		ownNames[hname(k)] = true
 	}
-	topicIn := func(k int) string {
-		if cfg.SameTopics && len(cfg.Subs) == nh {
-			return id + ".in"
-		}
-		return id + ".in" + suffix(k)
-	}
-	topicOut := func(k int) string {
-		if cfg.SameTopics {
-			return id + ".out"
-		}
-		return id + ".out" + suffix(k)
-	}
-	hname := func(k int) string { return id + ".h" + suffix(k) }
 
 	ctl := vlib.NewCtl(e.R.Uint64(), cfg.YieldP, 30)
-	ctl.Filter(func(point, a, b string) bool { return a == "" || strings.HasPrefix(a, id) })
+	ctl.Filter(func(point, a, b string) bool { return a == "" || strings.HasPrefix(a, id) || ownNames[a] })
 	defer ctl.Uninstall()
 
 	subs := make([]*vlib.Sub, len(cfg.Subs))
@@ -1120,8 +1591,8 @@ func runBatch(e *vlib.Env, cfg config) (res vlib.Result) {
 		router.AddSubscriberDecorators(message.MessageTransformSubscriberDecorator(func(*message.Message) { st.subDecoCalls.Add(1) }))
 	}
 	hds := make([]*message.Handler, nh)
-	for k, hs := range cfg.Handlers {
-		k := k
+	addHandler := func(k int) {
+		hs := cfg.Handlers[k]
 		fn := func(m *message.Message) ([]*message.Message, error) { return st.handle(k, m) }
 		switch hs.Kind {
 		case kindPub:
@@ -1135,13 +1606,85 @@ func runBatch(e *vlib.Env, cfg config) (res vlib.Result) {
 			})
 		}
 	}
-	for _, name := range cfg.MW {
-		if strings.HasSuffix(name, "-r") {
-			router.AddMiddleware(st.middleware(name))
-		} else {
-			for k := range hds {
-				hds[k].AddMiddleware(st.middleware(name))
+	// the middlewares that are added to handler k only
+	addOwnMW := func(k int) {
+		for _, name := range cfg.Handlers[k].MW {
+			hds[k].AddMiddleware(st.middleware(name, k))
+		}
+	}
+	addRouterMW := func() {
+		for _, name := range cfg.MW {
+			if strings.HasSuffix(name, "-r") {
+				router.AddMiddleware(st.middleware(name, -1))
 			}
+		}
+	}
+	// cfg.MW entries of handler level are added to every handler
+	addCommonMW := func(ks []int) {
+		for _, name := range cfg.MW {
+			if !strings.HasSuffix(name, "-r") {
+				for _, k := range ks {
+					hds[k].AddMiddleware(st.middleware(name, k))
+				}
+			}
+		}
+	}
+	horder := cfg.HOrder
+	if horder == nil {
+		for k := range cfg.Handlers {
+			horder = append(horder, k)
+		}
+	}
+	var early, late []int
+	for _, k := range horder {
+		if cfg.Handlers[k].Late {
+			late = append(late, k)
+		} else {
+			early = append(early, k)
+		}
+	}
+	// Everything the Router is told before Run. Default order (all classes but names): the handlers, the router-level
+	// middlewares and the common handler-level ones in the order of cfg.MW, then the handlers' own middlewares.
+	routerMWAdded := false
+	grouped := cfg.MWGrouped || cfg.NameScheme == ""
+	if cfg.NameScheme == "" {
+		for _, k := range early {
+			addHandler(k)
+		}
+		for _, name := range cfg.MW {
+			if strings.HasSuffix(name, "-r") {
+				router.AddMiddleware(st.middleware(name, -1))
+			} else {
+				for _, k := range early {
+					hds[k].AddMiddleware(st.middleware(name, k))
+				}
+			}
+		}
+		routerMWAdded = true
+	} else {
+		for j, k := range early {
+			if j == cfg.RMWAt {
+				addRouterMW()
+				routerMWAdded = true
+			}
+			addHandler(k)
+			if !grouped {
+				addCommonMW([]int{k})
+				addOwnMW(k)
+			}
+		}
+		if !routerMWAdded {
+			// Router.AddMiddleware is only used before Run (it appends to the list without taking the lock under which
+			// the handler goroutines copy it)
+			addRouterMW()
+		}
+		if grouped {
+			addCommonMW(early)
+		}
+	}
+	if grouped {
+		for _, k := range early {
+			addOwnMW(k)
 		}
 	}
 	if cfg.Keep {
@@ -1195,13 +1738,19 @@ func runBatch(e *vlib.Env, cfg config) (res vlib.Result) {
 		return res
 	}
 	sps := make([]*vlib.Subscription, nh)
-	for k, hs := range cfg.Handlers {
-		sps[k] = subs[hs.Sub].SubFor(topicIn(k))
-		if sps[k] == nil {
-			res.Inconclusive("router is running but did not subscribe to %s", topicIn(k))
-			cleanup()
-			return res
+	subscribed := func(ks []int) bool {
+		for _, k := range ks {
+			sps[k] = subs[cfg.Handlers[k].Sub].SubFor(topicIn(k))
+			if sps[k] == nil {
+				res.Inconclusive("router is running but did not subscribe to %s", topicIn(k))
+				return false
+			}
 		}
+		return true
+	}
+	if !subscribed(early) {
+		cleanup()
+		return res
 	}
 
 	// watchers: stamp the settlement of every emitted message when it becomes visible
@@ -1228,9 +1777,9 @@ func runBatch(e *vlib.Env, cfg config) (res vlib.Result) {
 	}
 	// senders: one per subscription, each emits its messages one after another (the Router takes the next one
 	// without waiting for a settlement)
-	for k := range cfg.Handlers {
+	startSender := func(k int) {
 		aux.Add(1)
-		go func(k int) {
+		go func() {
 			defer aux.Done()
 			for i := range st.recs {
 				if cfg.Specs[i].Hd != k {
@@ -1244,7 +1793,68 @@ func runBatch(e *vlib.Env, cfg config) (res vlib.Result) {
 					return
 				}
 			}
-		}(k)
+		}()
+	}
+
+	// class names, re-used names: handlers that are stopped before the late handlers are added get their messages first;
+	// when all of them are settled the handler is stopped, and the harness waits until the Router reports it as stopped
+	// (it has forgotten the handler's name by then: AddHandler accepts the name again)
+	for _, k := range early {
+		if !cfg.Handlers[k].StopEarly {
+			continue
+		}
+		startSender(k)
+		oc, d := vlib.WaitUntil(func() bool {
+			st.mu.Lock()
+			defer st.mu.Unlock()
+			for i, r := range st.recs {
+				if cfg.Specs[i].Hd == k && (!r.sent || r.taken && r.seen == "") {
+					return false
+				}
+			}
+			return true
+		}, wopts)
+		if oc == vlib.Done {
+			hds[k].Stop()
+			oc, d = vlib.WaitClosed(hds[k].Stopped(), wopts)
+		}
+		if oc != vlib.Done {
+			res.Inconclusive("handler #%d (stopped before its name is used again) did not finish its messages and stop: %v", k, oc)
+			res.Witness = d
+			cleanup()
+			return res
+		}
+	}
+
+	// handlers that are added while the Router is running: their middlewares are in place before RunHandlers starts them
+	if len(late) > 0 {
+		for _, k := range late {
+			addHandler(k)
+			if !grouped {
+				addCommonMW([]int{k})
+				addOwnMW(k)
+			}
+		}
+		if grouped {
+			addCommonMW(late)
+			for _, k := range late {
+				addOwnMW(k)
+			}
+		}
+		if err := router.RunHandlers(runCtx); err != nil {
+			res.Inconclusive("RunHandlers: %v", err)
+			cleanup()
+			return res
+		}
+		if !subscribed(late) {
+			cleanup()
+			return res
+		}
+	}
+	for k := range cfg.Handlers {
+		if !cfg.Handlers[k].StopEarly {
+			startSender(k)
+		}
 	}
 
 	// class end: when every message is either settled or parked at its hold point, end the subscription, wait until
@@ -1261,7 +1871,7 @@ func runBatch(e *vlib.Env, cfg config) (res vlib.Result) {
 				}
 				sp := cfg.Specs[i]
 				parks := sp.Hold == holdPre || sp.Hold == holdPost ||
-					(sp.Hold == holdPublish && expect(cfg.kindOf(i), cfg.MW, hbehs[sp.H], cfg.ownBeh(i)).Publish)
+					(sp.Hold == holdPublish && expect(cfg.kindOf(i), cfg.chainOf(sp.Hd), hbehs[sp.H], cfg.ownBeh(i)).Publish)
 				if parks && r.parked == "" || !parks && r.seen == "" {
 					return false
 				}
@@ -1415,6 +2025,7 @@ func runBatch(e *vlib.Env, cfg config) (res vlib.Result) {
 		}
 	}
 	judged := 0
+	var chainFails [][2]string
 	var order []string
 	type so struct {
 		i int
@@ -1427,7 +2038,8 @@ func runBatch(e *vlib.Env, cfg config) (res vlib.Result) {
 		kind := cfg.kindOf(i)
 		ownBeh := cfg.ownBeh(i)
 		ownPub := cfg.Handlers[spc.Hd].Pub
-		x := expect(kind, cfg.MW, h, ownBeh)
+		chain := cfg.chainOf(spc.Hd)
+		x := expect(kind, chain, h, ownBeh)
 		got := vlib.Settled(r.in)
 		prsAll := pubsOf[i]
 		// a Publish call counts for the message only if it reached the publisher instance of the message's own handler
@@ -1457,7 +2069,17 @@ func runBatch(e *vlib.Env, cfg config) (res vlib.Result) {
 		desc := fmt.Sprintf("message %d/%d (handler=%s publisher=%s kind=%s middleware=%v)", i, n, h.Name, ownBeh, kind, cfg.MW)
 		if nh > 1 {
 			desc = fmt.Sprintf("message %d/%d (handler #%d of %d: %s, its publisher: instance %d of %v mode %q decorators %v -> %s, kind=%s middleware=%v)",
-				i, n, spc.Hd, nh, h.Name, ownPub, len(cfg.Pubs), cfg.PubMode, cfg.PubDecos, ownBeh, kind, cfg.MW)
+				i, n, spc.Hd, nh, h.Name, ownPub, len(cfg.Pubs), cfg.PubMode, cfg.PubDecos, ownBeh, kind, chain)
+		}
+		if cfg.NameScheme != "" {
+			var others []string
+			for k := range cfg.Handlers {
+				if k != spc.Hd {
+					others = append(others, fmt.Sprintf("#%d %q own middlewares %v", k, hname(k), cfg.Handlers[k].MW))
+				}
+			}
+			desc += fmt.Sprintf(" [its handler is registered as %q (late: %v) with router-level middlewares %v and own middlewares %v; other handlers: %s; middlewares invoked with the message: %v]",
+				hname(spc.Hd), cfg.Handlers[spc.Hd].Late, cfg.MW, cfg.Handlers[spc.Hd].MW, strings.Join(others, ", "), r.mwTrace)
 		}
 		if r.parked != "" {
 			desc += fmt.Sprintf(" [in flight (held at %s) when the subscription ended by %s; state at that moment %q]", r.parked, cfg.End, r.atEnd)
@@ -1484,15 +2106,15 @@ func runBatch(e *vlib.Env, cfg config) (res vlib.Result) {
 		if r.handledBy != spc.Hd {
 			res.Fail("handler-foreign-chain", "%s: the message was emitted by the subscription of handler #%d but the chain of handler #%d was invoked", desc, spc.Hd, r.handledBy)
 		}
-		if r.entryState != "" {
-			res.Fail("settled-before-handler", "%s: message already %sed when the handler was entered", desc, r.entryState)
+		if r.entryState != x.Entry {
+			res.Fail("settled-before-handler", "%s: message is %q when the handler function is entered, its chain had made it %q by then", desc, r.entryState, x.Entry)
 		}
-		if r.exited > 0 && r.exitState != x.Self {
-			res.Fail("settled-before-handler-exit", "%s: at handler exit the message is %q, the handler itself made it %q", desc, r.exitState, x.Self)
+		if r.exited > 0 && r.exitState != x.Exit {
+			res.Fail("settled-before-handler-exit", "%s: at handler exit the message is %q, the chain itself had made it %q by then", desc, r.exitState, x.Exit)
 		}
 		for k, ok := range r.selfRet {
-			if ok != (k == 0) {
-				res.Fail("self-settlement", "%s: settlement call %d inside the handler returned %v", desc, k, ok)
+			if k < len(x.SelfRet) && ok != x.SelfRet[k] {
+				res.Fail("self-settlement", "%s: settlement call %d inside the handler returned %v, want %v", desc, k, ok, x.SelfRet[k])
 			}
 		}
 		if x.Self != "" {
@@ -1582,6 +2204,22 @@ func runBatch(e *vlib.Env, cfg config) (res vlib.Result) {
 		case got != x.Final:
 			res.Fail("nack-on-success", "%s: message was nacked, want ack (chain failed: %v, outputs: %d, publish expected: %v)", desc, x.ChainErr, x.NOuts, x.Publish)
 		}
+		// --- "invokes the handler chain": the chain of a handler is the router-level middlewares, the middlewares that were
+		// added to that handler (Handler.AddMiddleware: "adds new middleware to the specified handler in the router") and
+		// its function. Every scripted middleware calls the inner handler exactly once, so each of them is entered once.
+		for inst, mi := range st.mws {
+			k := r.mwEntries[inst]
+			res.Count("middleware_invocations", k)
+			switch own := mi.owner < 0 || mi.owner == spc.Hd; {
+			case own && k == 0:
+				chainFails = append(chainFails, [2]string{"chain-middleware-skipped", fmt.Sprintf("%s: the %s middleware (%s) of its chain was not invoked", desc, mi.kind, mwLevel(mi.owner))})
+			case own && k > 1:
+				chainFails = append(chainFails, [2]string{"handler-calls", fmt.Sprintf("%s: the %s middleware (%s) of its chain was invoked %d times", desc, mi.kind, mwLevel(mi.owner), k)})
+			case !own && k > 0:
+				res.Count("foreign_middleware_invocations", k)
+				chainFails = append(chainFails, [2]string{"chain-foreign-middleware", fmt.Sprintf("%s: a %s middleware that was added to handler #%d (%q) only was invoked with this message", desc, mi.kind, mi.owner, hname(mi.owner))})
+			}
+		}
 		if got == "ack" {
 			res.Count("acked", 1)
 		} else if got == "nack" {
@@ -1591,6 +2229,29 @@ func runBatch(e *vlib.Env, cfg config) (res vlib.Result) {
 			res.Count("handler_got_emitted_pointer", 1)
 		}
 		sos = append(sos, so{i, r.seenStamp})
+	}
+	// reported after the clauses about settlements and Publish calls of all messages
+	for _, f := range chainFails {
+		res.Fail(f[0], "%s", f[1])
+	}
+	// Re-used names. The Router keeps the handler-level middlewares in one list keyed by handler NAME (router.go:
+	// addHandlerLevelMiddleware / handler.run) and does not drop the entries of a handler that stopped, so a handler that
+	// is later registered under that name gets them in its chain. All violations this causes are reported under one clause.
+	inherited := 0
+	for i, r := range st.recs {
+		hd := cfg.Specs[i].Hd
+		for inst, k := range r.mwEntries {
+			if o := st.mws[inst].owner; k > 0 && o >= 0 && o != hd && cfg.Handlers[o].StopEarly && hname(o) == hname(hd) {
+				inherited += k
+			}
+		}
+	}
+	if inherited > 0 {
+		res.Count("inherited_middleware_invocations", inherited)
+		if res.Failed() {
+			res.Reason = "[" + res.Clause + "] " + res.Reason
+			res.Clause = "name-reuse-inherits-middleware"
+		}
 	}
 	sort.Slice(sos, func(a, b int) bool { return sos[a].s < sos[b].s })
 	for _, s := range sos {
@@ -1638,6 +2299,44 @@ func runBatch(e *vlib.Env, cfg config) (res vlib.Result) {
 		res.Count("pubmode_"+cfg.PubMode, 1)
 		res.NonTrivial = res.NonTrivial && len(handled) >= 2
 	}
+	if cfg.NameScheme != "" {
+		changing, plain := 0, 0
+		for k, hs := range cfg.Handlers {
+			switch nm := hname(k); {
+			case nm == "":
+				res.Count("handlers_named_empty", 1)
+			case strings.TrimSpace(nm) == "":
+				res.Count("handlers_named_blank", 1)
+			}
+			if transformer(hs.MW) != "" || settler(hs.MW) != "" {
+				changing++
+			}
+			if len(hs.MW) == 0 {
+				plain++
+			}
+			if hs.Late {
+				res.Count("handlers_started_by_RunHandlers", 1)
+			}
+			if hs.StopEarly {
+				res.Count("handlers_stopped_before_their_name_is_used_again", 1)
+			}
+			for j := range cfg.Handlers {
+				if a, b := hname(j), hname(k); j != k && a != "" && strings.HasPrefix(b, a) {
+					res.Count("handler_name_is_prefix_of_another", 1)
+				}
+			}
+			for j := range cfg.Handlers {
+				if nm := hname(k); nm == topicIn(j) || nm == topicOut(j) {
+					res.Count("handler_name_equals_a_topic", 1)
+					break
+				}
+			}
+		}
+		res.Count("names_scheme_"+cfg.NameScheme, 1)
+		res.Count("handlers_with_outcome_changing_own_middleware", changing)
+		res.Count("handlers_without_own_middleware", plain)
+		res.NonTrivial = res.NonTrivial && changing >= 1 && plain >= 1
+	}
 	if k := int(st.pubDecoCalls.Load()); k > 0 {
 		res.Count("publisher_decorator_calls", k)
 	}
@@ -1655,7 +2354,7 @@ func runBatch(e *vlib.Env, cfg config) (res vlib.Result) {
 		}
 		res.Sig = vlib.Sig("random", cfg.Kind, cfg.MW, cfg.Barrier, shape, order)
 	} else {
-		res.Sig = vlib.Sig(cfg.Class, cfg.Handlers, cfg.Pubs, len(cfg.Subs), cfg.PubDecos, cfg.SubDecos, cfg.SameTopics, cfg.End, cfg.Keep, cfg.MW, cfg.Barrier, shape, order)
+		res.Sig = vlib.Sig(cfg.Class, cfg.Handlers, cfg.Pubs, len(cfg.Subs), cfg.PubDecos, cfg.SubDecos, cfg.SameTopics, cfg.End, cfg.Keep, cfg.MW, cfg.Barrier, shape, order, cfg.NameScheme, cfg.HOrder, cfg.RMWAt, cfg.MWGrouped)
 	}
 	res.Sample = map[string]any{
 		"kind": cfg.Kind, "middleware": cfg.MW, "messages": n, "barrier": cfg.Barrier, "max_in_flight": st.maxInflight,
@@ -1672,6 +2371,9 @@ func runBatch(e *vlib.Env, cfg config) (res vlib.Result) {
 		res.Sample.(map[string]any)["publisher_decorators"] = cfg.PubDecos
 		res.Sample.(map[string]any)["subscriber_instances"] = len(cfg.Subs)
 		res.Sample.(map[string]any)["same_topic_names"] = cfg.SameTopics
+		if cfg.NameScheme != "" {
+			res.Sample.(map[string]any)["registration"] = map[string]any{"handler_order": cfg.HOrder, "router_middlewares_after_n_handlers": cfg.RMWAt, "handler_middlewares_after_all_handlers": cfg.MWGrouped}
+		}
 		if cfg.SameTopics {
 			res.Count("cases_with_equal_topic_names", 1)
 		}
